@@ -10,8 +10,13 @@ set-based bookkeeping on resolve tables, `Generated.C12TempVm` is the per-method
 routing table regenerated from `runtime/vm_temp.go` on every run.
 
 All statements quantify over every environment (`Disk`: file contents, class path,
-case folding), every history (`List Op`, any length, any number of TempVMs — slots
-are natural numbers) and every operation.
+case folding, bodies of the autoload callbacks), every history (`List Op`, any length, any
+number of TempVMs — slots are natural numbers) and every operation. The operations are the
+host API (`AddX`, `LoadAndRun`, `ParseFile`, `GetOrLoadClass`, `GetOrLoadInterface`,
+`LoadPkg`, discard) and every route by which *script code* running on a VM defines
+something: `eval()`, `include` / `require`, a function statement executed at run time,
+`spl_autoload_register` (the callbacks then run on whichever VM autoloads), a class needed
+at parse or run time, `define()`, `class_alias`, and the routes that define nothing.
 -/
 namespace C12
 open Model.Temp Spec.Temp Proofs.Temp
@@ -40,10 +45,14 @@ routing and `ParseFile` is covered by the theorem.
 /-- **Isolation** (`_partial`: the hypothesis `leaky … = false` excludes exactly the
 operations that reach the base's autoloader through a TempVM — `GetOrLoadInterface` /
 `LoadPkg` on TempVM `i` for a name that neither the TempVM nor the base has and for
-which the class path finds a file). After any history, any other operation invoked on
+which the base's autoloader has something to try: a class-path file or a registered
+autoload callback). After any history, any other operation invoked on
 TempVM `i` — registering a class / interface / function, `LoadAndRun`, `ParseFile`,
-`GetOrLoadClass` (autoload), discarding the TempVM — leaves what the base and every other
-TempVM resolve exactly as it was. -/
+`GetOrLoadClass` (autoload, also through the callbacks scripts registered on *any* VM),
+discarding the TempVM, and every script route: `eval()`, `include` / `require`, a function
+statement executed at run time, `spl_autoload_register`, a class needed by `new` /
+`extends` / trait `use`, `define()`, `class_alias`, anonymous classes / closures — leaves
+what the base and every other TempVM resolve exactly as it was. -/
 theorem C12_isolation_partial (d : Disk) (ops : List Op) (op : Op) (i : Nat)
     (hv : op.via = .temp i) (hl : leaky d (run d ops) op = false) :
     Isolated i (tables d ops) (tables d (ops ++ [op])) := by
@@ -63,6 +72,28 @@ theorem C12_isolation_defining_routes (d : Disk) (ops : List Op) (op : Op) (i : 
   | getOrLoadInterface v n => exact absurd rfl (hk v n).1
   | loadPkg v n => exact absurd rfl (hk v n).2
   | _ => rfl
+
+/-- **`eval()` is refused on a TempVM and defines nothing anywhere**: nobody's table changes,
+not even the TempVM's own (on the pinned tree `EvalFunction.Call` insists on a
+`*runtime.VM`; a TempVM that *delegated* the string to the base's `EvalCode` would register
+its classes in the base — the regenerated obligation `C12_parsers_bound_to_temp` and the
+correspondence run watch for exactly that). -/
+theorem C12_eval_refused_on_temp (d : Disk) (ops : List Op) (i : Nat) (u : File) (id : Nat) :
+    tables d (ops ++ [.evalCode (.temp i) u id]) = tables d ops := by
+  funext v
+  show resolve d (run d (ops ++ [.evalCode (.temp i) u id])) v = resolve d (run d ops) v
+  rw [run_snoc]
+  exact resolve_scriptEval_temp d (run d ops) i u id v
+
+/-- **The routes that define nothing define nothing**, on whichever VM they run (the base
+included): registering an autoload callback, `define()` (constants are shared by design and
+are not part of the resolve tables), `class_alias`, anonymous classes / closures. -/
+theorem C12_inert_routes_define_nothing (d : Disk) (ops : List Op) (op : Op)
+    (h : Op.inertRoute op = true) : tables d (ops ++ [op]) = tables d ops := by
+  funext v
+  show resolve d (run d (ops ++ [op])) v = resolve d (run d ops) v
+  rw [run_snoc]
+  exact resolve_inert d (run d ops) op h v
 
 /-- the part of the environment the negation witnesses need: `B.php` declares interface 2
 (and function 3), `C.php` declares class 4 and interface 5; the class path finds them. -/
@@ -178,7 +209,77 @@ theorem C12_wellRouted_sound (fs : List Fact) (h : WellRouted fs = true) (f : Fa
     (hk : f.method ∉ Known) : f.delegatesDefining = false ∧ f.writesBase = [] :=
   wellRouted_sound fs h f hf hk
 
+/-- **Parsers and contexts are bound to the TempVM** (regenerated on every run from
+`runtime/*.go`): classes / interfaces / traits / enums register while *parsing*, through the
+VM the parser is bound to, and functions while *running*, through the VM of the context. So:
+the base's parser is only ever handed to `PrepareParse` (which clones it and binds the clone
+to the TempVM); a `TempVM` method that parses does so after `PrepareParse`; programs are
+evaluated in `vm.CreateContext(…)` or the caller's context; only `PrepareParse` assigns
+`vm.parser`; and no method outside the intended delegations (`Intended`) and the known
+finding (`KnownLeaks`) hands code to a method of the base that — by the regenerated facts
+about `runtime.VM`, closed under calls — parses or autoloads with the base-bound parser.
+A `TempVM.EvalCode` that returns `vm.Base.EvalCode(…)`, or that clones `vm.Base.parser`
+itself, makes this `decide` fail. -/
+theorem C12_parsers_bound_to_temp :
+    ParsersBound Generated.C12TempVm.vmFacts Generated.C12TempVm.vmParsing Generated.C12TempVm.facts = true := by
+  decide
+
+/-- What that obligation means, for every table: a method outside `Known` hands nothing to
+a parsing method of the base, uses the base's parser only through `PrepareParse`, parses only
+after `PrepareParse`, and evaluates only in its own or the caller's context. -/
+theorem C12_parsersBound_sound (vs : List VmFact) (P : List String) (fs : List Fact)
+    (h : ParsersBound vs P fs = true) (f : Fact) (hf : f ∈ fs) (hk : f.method ∉ Known) :
+    f.delegatesParsing P = false ∧ (∀ c ∈ f.baseParser, c = "PrepareParse") ∧
+    (f.parses ≠ [] → "PrepareParse" ∈ f.selfCalls) ∧
+    (∀ c ∈ f.evalCtx, c = "self.CreateContext" ∨ c = "param") :=
+  parsersBound_sound vs P fs h f hf hk
+
+/-- the least fixed point the translator emits is what the obligation is about: anything
+closed under `parsingStep` contains every method that uses `vm.parser` itself -/
+theorem C12_closed_contains_direct (vs : List VmFact) (P : List String) (h : closedUnder vs P = true)
+    (f : VmFact) (hf : f ∈ vs) (ho : f.ownParser = true) : f.method ∈ P :=
+  closed_contains_direct vs P h f hf ho
+
 /-! ### non-vacuity -/
+
+/-- `witnessDisk` plus include files (5: class 0, function 0; 6: class 7) and one autoload
+callback that includes file 6 when asked for name 7 (the class path has no file for 7) -/
+def scriptDisk : Disk :=
+  { witnessDisk with
+    content := fun f =>
+      if f = 5 then some [⟨.cls, 0⟩, ⟨.fn, 0⟩]
+      else if f = 6 then some [⟨.cls, 7⟩]
+      else witnessDisk.content f
+    cbs := [fun n => if n = 7 then some 6 else none] }
+
+/-- script routes: TempVM 0 registers the autoload callback and includes file 5; the base
+`eval`s a declaration of class 4; TempVM 1 needs class 7 (`new`), which the callback —
+registered by TempVM 0 — includes *on TempVM 1*; TempVM 1 declares function 3 at run time;
+`eval` on TempVM 1 is refused. -/
+def scriptDemo : List Op :=
+  [.autoReg (.temp 0) 0, .incl (.temp 0) 5 true, .evalCode .base 2 9, .useClass (.temp 1) 7 false,
+   .runFn (.temp 1) 3 8, .evalCode (.temp 1) 5 7]
+
+example : (tables scriptDisk scriptDemo .base .cls 0, tables scriptDisk scriptDemo (.temp 0) .cls 0,
+           tables scriptDisk scriptDemo (.temp 1) .cls 0,
+           tables scriptDisk scriptDemo .base .cls 4, tables scriptDisk scriptDemo (.temp 1) .cls 4)
+    = (none, some (.file 5), none, some (.stub 9), some (.stub 9)) := by decide
+
+example : (tables scriptDisk scriptDemo .base .cls 7, tables scriptDisk scriptDemo (.temp 0) .cls 7,
+           tables scriptDisk scriptDemo (.temp 1) .cls 7,
+           tables scriptDisk scriptDemo (.temp 1) .fn 3, tables scriptDisk scriptDemo (.temp 0) .fn 3,
+           (run scriptDisk scriptDemo).base.thrown)
+    = (none, none, some (.file 6), some (.stub 8), none, 1) := by decide
+
+example : NoLeak scriptDisk {} scriptDemo := by decide
+
+example : Op.inertRoute (.autoReg (.temp 0) 0) = true ∧ Op.inertRoute (.define .base 1) = true := by decide
+
+/-- once a callback is registered, `GetOrLoadInterface` through a TempVM is a leaky route even
+for a name without a class-path file -/
+example : leaky scriptDisk (run scriptDisk [.autoReg (.temp 0) 0]) (.getOrLoadInterface (.temp 1) 7) = true ∧
+    leaky scriptDisk (run scriptDisk []) (.getOrLoadInterface (.temp 1) 7) = false := by decide
+
 
 /-- a history with three VMs in which every route is exercised; TempVM 0 and TempVM 1
 define the same names differently, the base sees none of it -/
